@@ -83,7 +83,7 @@ fn feat(h: &RefHealth) -> (usize, usize, bool, bool, bool, bool) {
 impl Mon {
     pub fn risk_on_ix(&mut self, w: &World, v: &IxView, info: &IxInfo) {
         match info.kind {
-            Kind::Borrow | Kind::Withdraw | Kind::KaminoWithdraw | Kind::SolendWithdraw => self.c04_success(w, v, info),
+            Kind::Borrow | Kind::Withdraw | Kind::KaminoWithdraw | Kind::SolendWithdraw | Kind::DriftWithdraw => self.c04_success(w, v, info),
             Kind::EndFlashloan => self.c11_end(w, v, info),
             Kind::Liquidate => self.c05(w, v, info),
             Kind::HandleBankruptcy => self.c07(w, v, info),
@@ -177,7 +177,7 @@ impl Mon {
             return;
         }
         let kind = Kind::of(&ev.data);
-        if !matches!(kind, Kind::Borrow | Kind::Withdraw | Kind::KaminoWithdraw | Kind::SolendWithdraw | Kind::EndFlashloan) {
+        if !matches!(kind, Kind::Borrow | Kind::Withdraw | Kind::KaminoWithdraw | Kind::SolendWithdraw | Kind::DriftWithdraw | Kind::EndFlashloan) {
             return;
         }
         let v = IxView { ev, cur: &w.shadow };
